@@ -496,6 +496,8 @@ pub enum Pool {
     /// one identifier family with its generated-suffix look-alikes: foo / Foo / FOO next to foo_1,
     /// foo_attr, foo_attr_1, foo_attr_2 ... (collisions between generated and literal suffixes)
     SuffixClash,
+    /// reserved type names next to names that equal parent + reserved name
+    ReservedConcat,
 }
 
 const SYNTHETIC: &[&str] = &[
@@ -515,6 +517,9 @@ pub fn pool_names(pool: Pool, for_attrs: bool) -> Vec<&'static str> {
         Pool::Synthetic => {
             v.extend_from_slice(SYNTHETIC);
             v.extend_from_slice(PLAIN);
+        }
+        Pool::ReservedConcat => {
+            v.extend_from_slice(&["a", "b", "option", "Option", "vec", "string", "self", "a_option", "AOption", "b_option", "a_vec", "AVec", "a_string", "a_self", "b_vec", "BString", "option_a", "OptionA"]);
         }
         Pool::SuffixClash => {
             v.extend_from_slice(&["foo", "Foo", "FOO", "fOO", "foo_1", "foo_2", "foo_attr", "foo_attr_1", "foo_attr_2", "foo_3", "text", "text_content", "Text", "text_content_1", "foo_attr_3"]);
